@@ -168,6 +168,41 @@ func cmdC05(r *RNG, n int, e *Emitter, args []string) {
 			in, split = clip.Paths64{nd}, 0
 			e.Count("shape=needle")
 		}
+		if i%9 == 4 {
+			// huge thin quadrilateral: one dimension between 2^31.6 and 2^40 (the squared length of its long edges does not
+			// fit 63 bits), the other a few hundred units; axis-parallel or slightly slanted, 4 orientations
+			L := r.Range(3100000000, 4200000000) // squared length beyond 2^63, yet (L/2)^2 below it: the library's own int64 dot products of two pieces of such an edge still fit (beyond that the int64-product-overflow finding of C13 takes over)
+			W := r.Range(200, 5000)
+			h0 := int64(0)
+			if r.Bool() {
+				h0 = r.Range(-3000, 3000)
+			}
+			x0, y0 := r.Range(-1000, 1000), r.Range(-1000, 1000)
+			hq := clip.Path64{{X: x0, Y: y0}, {X: x0 + L, Y: y0 + h0}, {X: x0 + L, Y: y0 + h0 + W}, {X: x0, Y: y0 + W}}
+			for j := range hq {
+				x, y := hq[j].X, hq[j].Y
+				switch (i / 9) % 4 {
+				case 1:
+					x, y = -y, x
+				case 2:
+					x, y = -x, -y
+				case 3:
+					x, y = y, -x
+				}
+				hq[j] = clip.Point64{X: x, Y: y}
+			}
+			if clip.Area64(hq) < 0 {
+				hq = clip.ReversePath(hq)
+			}
+			sign = 1
+			if r.Intn(3) == 0 {
+				hq = clip.ReversePath(hq)
+				sign = -1
+			}
+			in, split = clip.Paths64{hq}, 0
+			S = float64(W) / 4 // deltas are chosen relative to the thin dimension
+			e.Count("shape=huge-thin")
+		}
 		// ways of writing a ring down: explicit closing vertex, a repeated vertex
 		for k := range in {
 			if r.Intn(4) == 0 {
